@@ -230,7 +230,7 @@ def plans_C05(g, tier):
 
 def plans_C06(g, tier):
     n = 3
-    alpha = [g.call(0, F1, a) for a in range(n)] + [g.release(i) for i in range(n)] + [g.op(OP_DESTROY_SEQ, s1=q) for q in (0, 1)] + [g.op(OP_MOVE_SEQ, s1=0), g.op(OP_ASSIGN_SEQ, s1=0)]
+    alpha = [g.call(0, F1, a) for a in range(n)] + [g.release(i) for i in range(n)] + [g.op(OP_DESTROY_SEQ, s1=q) for q in (0, 1)] + [g.op(OP_MOVE_SEQ, s1=0), g.op(OP_ASSIGN_SEQ, s1=0), g.op(OP_ASSIGN_SEQ, s1=0, s2=1, k1=1), g.op(OP_ASSIGN_SEQ, s1=1, s2=0, k1=1)]
     mask = F_QSEQ | F_REPCOUNT | F_REPCULPRIT | F_REPDETAIL | F_KIND
     if tier == 'quick':
         return [dict(name='seq3teardown', mask=mask, du=0, dm=5, alphabet=alpha, prefixes=seq_configs(g, 3, [(1, 1), (0, INF), (2, 2)], any_matchers=False)),
@@ -562,9 +562,9 @@ def plans_C14(g, tier):
                  g.monitor(2, g.shape(mock='W', seqar=1), w=0, s1=0)]
     destroy = [g.release(0), g.release(1), g.release(2), g.release(3), g.op(OP_DESTROY_MOCK, obj=0), g.op(OP_DESTROY_MOCK, obj=2), g.op(OP_DESTROY_MOCK, obj=3),
                g.op(OP_MOVE_MOCK, obj=2, k1=3), g.op(OP_MOVE_MOCK, obj=3, k1=2), g.op(OP_DESTROY_SEQ, s1=0), g.op(OP_DESTROY_SEQ, s1=1), g.op(OP_MOVE_SEQ, s1=0),
-               g.op(OP_DELETE_WATCHED, obj=0), g.op(OP_POP_TRACER)]
+               g.op(OP_ASSIGN_SEQ, s1=0, s2=1, k1=1), g.op(OP_ASSIGN_SEQ, s1=1, s2=0, k1=1), g.op(OP_DELETE_WATCHED, obj=0), g.op(OP_POP_TRACER)]
     probes = [g.call(0, F1, 1), g.call(2, F1, 1), g.call(3, F1, 1)]
-    small_alpha = [g.release(0), g.release(1), g.release(2), g.op(OP_DESTROY_MOCK, obj=0), g.op(OP_DESTROY_SEQ, s1=0), g.op(OP_MOVE_SEQ, s1=0), g.op(OP_DELETE_WATCHED, obj=0),
+    small_alpha = [g.release(0), g.release(1), g.release(2), g.op(OP_DESTROY_MOCK, obj=0), g.op(OP_DESTROY_SEQ, s1=0), g.op(OP_MOVE_SEQ, s1=0), g.op(OP_ASSIGN_SEQ, s1=0, s2=1, k1=1), g.op(OP_DELETE_WATCHED, obj=0),
                    g.call(0, F1, 1), g.call(0, F1, 2)]
     if tier == 'quick':
         return [dict(name='pop6', mask=M_C14, du=9, dm=6, alphabet=small_alpha, prefixes=[pop_small]),
